@@ -117,12 +117,15 @@ ExampleNames ==
   {"msg:helper-update", "msg:helper-open", "msg:eor-ipv4", "msg:eor-evpn",
    "attr:tunnelencap", "attr:tunnelencap-srpolicy", "attr:pmsi", "attr:pmsi-default", "attr:aigp",
    "attr:ls-node", "attr:prefixsid", "attr:extcomm-all", "attr:ip6extcomm", "attr:aggregator-mismatch",
-   "nlri:l2vpn-evpn", "nlri:l2vpn-vpls", "nlri:rtc", "nlri:ipv4-encap", "nlri:ipv4-encap-two",
+   "nlri:l2vpn-evpn", "nlri:l2vpn-evpn-ipmsi", "nlri:l2vpn-vpls", "nlri:rtc", "nlri:ipv4-encap", "nlri:ipv4-encap-two",
    "nlri:ipv6-encap", "nlri:ipv4-flowspec", "nlri:ipv4-flowspec-long", "nlri:ipv6-flowspec",
    "nlri:l3vpn-ipv4-flowspec", "nlri:l3vpn-ipv6-flowspec", "nlri:l2vpn-flowspec", "nlri:opaque",
    "nlri:ls-node", "nlri:ls-link", "nlri:ls-prefix4", "nlri:ls-prefix6", "nlri:ls-srv6sid",
    "nlri:ipv4-srpolicy", "nlri:ipv6-srpolicy", "nlri:ipv4-mup", "nlri:ipv6-mup"}
+(* the package's helper builds a 4-octet AS_PATH whatever the session: not a 2-octet-AS message *)
+FourOctetOnly == {"msg:helper-update"}
 SweepEx == {Beh(Example(n), Opt(FALSE, a, ap, ap)) : n \in ExampleNames, a \in BOOLEAN, ap \in BOOLEAN}
+           \ {Beh(Example(n), Opt(FALSE, TRUE, ap, ap)) : n \in FourOctetOnly, ap \in BOOLEAN}
 
 Behaviours ==
   CASE Sweep = "attr" -> SweepAttr
